@@ -79,7 +79,11 @@ def generate(rng, seed, index, tier):
                 # rows-only scaling: variable exponents and the objective exponent are zero
                 kw["scaling"]["var"] = [0] * spec["n"]
                 kw["scaling"]["obj"] = 0
-            elif u_ < 0.22:
+            elif u_ < 0.32:
+                # variables-only scaling: row exponents and the objective exponent are zero
+                kw["scaling"]["cons"] = [0] * spec["m"]
+                kw["scaling"]["obj"] = 0
+            if u_ >= 0.1 and u_ < 0.22:
                 # objective-only scaling: every variable / row exponent is zero
                 kw["scaling"]["var"] = [0] * spec["n"]
                 kw["scaling"]["cons"] = [0] * spec["m"]
